@@ -22,6 +22,8 @@ def rand_env(r):
                 opts["path"] = [r.choice([1, 2])]          # the default path is the user's home directory: always give one
             args = rand_opts(r, 0.25)
             repo.append({"name": name, "opts": opts, "args": args})
+            if r.random() < 0.3:      # registered under a key that is not the cluster's own name (possibly another cluster's key)
+                repo[-1]["own"] = r.choice(["vendor." + name, "ka", "kb", "kc"])
         env.append(repo)
     return env
 
